@@ -312,6 +312,19 @@ def check_pair(ctx, key, da, db, mclass, shape, ma, mb):
                 judge('**%s' % k, observe(operator.pow, Aabs, k), 'value',
                       base ** k, tuple(p * k for p in veca))
             if b_is_q:
+                # a dimensional exponent has no meaning: never a value
+                for lab, o in (('quantity ** quantity',
+                                observe(operator.pow, A, B)),
+                               ('number ** quantity',
+                                observe(operator.pow, 2.0, B))):
+                    ctx.evals()
+                    if 'ok' in o:
+                        ctx.violation('%s returned a value' % lab,
+                                      dict(case, op=lab),
+                                      {'returned': repr(o['ok'])[:160]})
+                    elif o['exc'] not in ('TypeError', 'UnitsError'):
+                        ctx.violation('%s raised %s' % (lab, o['exc']),
+                                      dict(case, op=lab), {'msg': o['msg']})
                 o = observe(lambda: A.in_units(db[1]))
                 if same_vec(veca, vecb):
                     judge('in_units', o, 'value', va / _si(db[1]), ZERO7)
